@@ -227,6 +227,25 @@ OddSchemas == << "1.2", "1.20", "1.200", "1.2e0", "+1.2", "12e-1", "01.2", "0.12
 OddSchemaInit == st \in 1..Len(OddSchemas)
 OddSchemaNext == st > 0 /\ st' = 0 - st /\ PrintT(ToJson([rec |-> "oddschema", text |-> "schema: " \o OddSchemas[st] \o "\ncontents:\n  - core.fga\n", ok |-> FALSE]))
 OddSchemaOK == TRUE
+\* Presentation styles beyond plain / quoted scalars: anchors and aliases, block scalars (literal, folded, with and without the final
+\* line break), tagged scalars, a complex key. What is claimed: accepted or not, the returned values in manifest order, one error per
+\* offending entry (positions of decorated and block scalars are not claimed: DESIGN II.6b)
+Styled == <<
+  [text |-> "schema: '1.2'\ncontents:\n  - &a core.fga\n  - b.fga\n",                       ok |-> TRUE,  values |-> <<"core.fga", "b.fga">>, nerr |-> 0],
+  [text |-> "schema: '1.2'\ncontents:\n  - &a core.fga\n  - *a\n",                          ok |-> FALSE, values |-> <<>>, nerr |-> 1],        \* an alias is no string node
+  [text |-> "schema: '1.2'\ncontents:\n  - |-\n    d.fga\n  - >-\n    dir/e.fga\n",          ok |-> TRUE,  values |-> <<"d.fga", "dir/e.fga">>, nerr |-> 0],
+  [text |-> "schema: '1.2'\ncontents:\n  - |\n    d.fga\n  - e.fga\n",                      ok |-> FALSE, values |-> <<>>, nerr |-> 1],        \* kept final line break: no .fga suffix
+  [text |-> "schema: &v '1.2'\ncontents:\n  - !!str b.fga\n  - c.fga\n",                     ok |-> TRUE,  values |-> <<"b.fga", "c.fga">>, nerr |-> 0],
+  [text |-> "schema: '1.2'\ncontents: &c\n  - a.fga\n",                                      ok |-> TRUE,  values |-> <<"a.fga">>, nerr |-> 0],
+  [text |-> "schema: '1.2'\ncontents:\n  - &x ../evil.fga\n  - *x\n  - ok.fga\n",            ok |-> FALSE, values |-> <<>>, nerr |-> 2],
+  [text |-> "schema: '1.2'\ncontents:\n  - |-\n    ../x.fga\n",                              ok |-> FALSE, values |-> <<>>, nerr |-> 1],
+  [text |-> "schema: '1.2'\ncontents:\n  - >-\n    dir/\n    e.fga\n",                       ok |-> TRUE,  values |-> <<"dir/ e.fga">>, nerr |-> 0],      \* folded: the line break reads as a blank
+  [text |-> "schema: '1.2'\ncontents:\n  - ? a.fga\n",                                       ok |-> FALSE, values |-> <<>>, nerr |-> 1],
+  [text |-> "schema: |-\n  1.2\ncontents:\n  - a.fga\n",                                     ok |-> TRUE,  values |-> <<"a.fga">>, nerr |-> 0],
+  [text |-> "contents:\n- &p \"dir%2Fb.fga\"\n- 'q.fga'\nschema: \"1.2\"\n",                 ok |-> TRUE,  values |-> <<"dir/b.fga", "q.fga">>, nerr |-> 0] >>
+StyledInit == st \in 1..Len(Styled)
+StyledNext == st > 0 /\ st' = 0 - st /\ PrintT(ToJson([rec |-> "styled"] @@ Styled[st]))
+StyledOK == TRUE
 OddInit == st \in 1..Len(OddManifests)
 OddNext == st > 0 /\ st' = 0 - st /\ PrintT(ToJson([rec |-> "odd", text |-> OddManifests[st], ok |-> FALSE]))
 OddOK == TRUE
